@@ -29,6 +29,14 @@ import Batchie.Lemmas.Thetas
 | quantifier: all numbers of chains and samples per chain; all orders of the chain files | unbounded lists in every theorem; `C10_chain_ids_aligned` is for every list `hs` |
 | quantifier: both sample types, empty single-effect table | `Sample.combo / .inter`, `Table = []` allowed; satisfiability `example`s |
 
+| "refuses out-of-range access", negative indices spelled out / exact characterisation | `C10_get_theta_refuses_negative`, `C10_get_theta_iff` |
+
+Regression (not a clause) -- definitions that are NOT the code, each refuted on a witness:
+* S7-C10 `getThetaOld` (Python list indexing, `-n .. -1` served): `C10_get_theta_old_counterexample`;
+* S5-C10 `sortByStringOld` (group names sorted as strings): `C10_string_sort_old_counterexample` (n = 11: `0, 1, 10, 2, …`); the positive side
+  for every n and every listing order is `C10_numeric_sort_restores_order` / `C10_numeric_sort_payload`;
+* fix-era: the `example` with two single-effect tables (shared parameters written from the first sample only).
+
 harness-only (cannot be stated in this functional model):
 * HDF5 / h5py container fidelity (a dataset / attribute comes back with the dtype, shape and bytes it was given; gzip;
   alphabetical listing) -- trusted, watched by the raw-file correspondence;
@@ -266,6 +274,55 @@ theorem C10_refusals :
     have : ¬ ((i : Int) > (h.thetas.length : Int) - 1 ∨ (i : Int) < 0) := by omega
     simp [getTheta, this, hi]
   · intro n; rfl
+
+/-! ### regression lemmas (seeded changes of later rounds; the definitions are NOT the code) -/
+
+/-- "refuses out-of-range access", negative side spelled out: EVERY index `-n .. -1` of a
+collection of `n` samples (and everything below) is refused -- the code does not follow Python's
+list convention.  (Instance of `C10_refusals`, clause 3.) -/
+theorem C10_get_theta_refuses_negative (h : Holder) (i : Int) (hi : i ≤ -1) :
+    getTheta h i = .error .valueError :=
+  C10_refusals.2.2.1 h i (Or.inl (by omega))
+
+/-- the access function is exactly "serve `0 .. n-1`, refuse every other integer" -/
+theorem C10_get_theta_iff (h : Holder) (i : Int) :
+    (∃ t, getTheta h i = .ok t) ↔ (0 ≤ i ∧ i < h.thetas.length) := by
+  constructor
+  · rintro ⟨t, ht⟩
+    by_cases hr : 0 ≤ i ∧ i < h.thetas.length
+    · exact hr
+    · have : i < 0 ∨ i ≥ h.thetas.length := by omega
+      rw [C10_refusals.2.2.1 h i this] at ht
+      cases ht
+  · rintro ⟨h0, h1⟩
+    have hn : i.toNat < h.thetas.length := by omega
+    have := C10_refusals.2.2.2.1 h i.toNat hn
+    rw [Int.toNat_of_nonneg h0] at this
+    exact ⟨_, this⟩
+
+/-- S7-C10 (`get_theta` with list negative indexing): the regression definition serves index `-1`
+of a one-sample collection -- an out-of-range access is NOT refused; the code's definition refuses it -/
+theorem C10_get_theta_old_counterexample :
+    (getThetaOld ⟨1, [Sample.inter ⟨0, none, [7]⟩ ⟨0, none, [7]⟩ ⟨0, none, [7]⟩ []]⟩ (-1)).toOption
+      = some (Sample.inter ⟨0, none, [7]⟩ ⟨0, none, [7]⟩ ⟨0, none, [7]⟩ []) ∧
+    (getTheta ⟨1, [Sample.inter ⟨0, none, [7]⟩ ⟨0, none, [7]⟩ ⟨0, none, [7]⟩ []]⟩ (-1)).toOption = none := by
+  decide
+
+/-- S5-C10 (group names sorted as strings): for 11 samples the string order of the names
+`"0" .. "10"` is `0, 1, 10, 2, …` -- the samples come back PERMUTED (sample 10 in third place);
+sorting by integer value (`sortByInt`, the code) restores `0 .. 10`
+(`C10_numeric_sort_restores_order` for every n and every listing order). -/
+theorem C10_string_sort_old_counterexample :
+    sortByStringOld ((List.range 11).map (fun i => (toString i, i)))
+      = [0, 1, 10, 2, 3, 4, 5, 6, 7, 8, 9] ∧
+    (sortByInt ((List.range 11).map (fun i => (toString i, i)))).toOption
+      = some (List.range 11) := by
+  constructor
+  · decide +kernel
+  · have := C10_numeric_sort_payload ((List.range 11).map (fun i => (toString i, i)))
+      ((List.range 11).map (fun i => (toString i, i))) (by simp [List.map_map, Function.comp_def]) (List.Perm.refl _)
+    rw [this]
+    simp [Except.toOption, List.map_map, Function.comp_def]
 
 /-! ### non-vacuity -/
 
